@@ -123,9 +123,17 @@ Theorem py_type_file_in_package_dir : forall t,
 Proof. intros. apply type_file_in_package_dir; vm_compute; reflexivity. Qed.
 
 (* ---- generation completes: stropping never fails on a DSDL name (C09's totality), so sid_of's second arm is dead ---- *)
-Lemma sid_of_ok l ty s : s <> [] -> str_eqb (lower ty) ty_all = false -> strop_lang l ty s = Ok (sid_of l ty s).
+Lemma sid_of_ok l ty s : cpp_whole_token_premise -> s <> [] -> str_eqb (lower ty) ty_all = false -> strop_lang l ty s = Ok (sid_of l ty s).
 Proof.
-  intros Hs Hty. destruct (strop_total_lang l ty s Hs Hty) as [t Ht]. unfold sid_of. rewrite Ht. reflexivity.
+  intros P Hs Hty. destruct (strop_total_lang l ty s P Hs Hty) as [t Ht]. unfold sid_of. rewrite Ht. reflexivity.
+Qed.
+
+(* C and Python need no premise (C09's premise is about the C++ whole-token re-check only) *)
+Lemma sid_of_ok_c_py l ty s : l <> LCpp -> s <> [] -> str_eqb (lower ty) ty_all = false -> strop_lang l ty s = Ok (sid_of l ty s).
+Proof.
+  intros Hl Hs Hty. assert (E : exists t, strop_lang l ty s = Ok t).
+  { destruct l; [apply strop_total_c_thm; assumption|congruence|apply strop_total_py_thm; assumption]. }
+  destruct E as [t Ht]. unfold sid_of. rewrite Ht. reflexivity.
 Qed.
 
 (* every id type the path / guard / namespace / import sites pass is a legal one (not "all") *)
